@@ -33,6 +33,7 @@ func RaceEcho(ctx erpc.CallCtx, a *RArg) (*RArg, *erpc.Status) {
 	ctx.Session().Health()
 	_ = ctx.Session().ID()
 	ctx.Swap().Store("h", a.N)
+	ctx.SetMeta("k", a.S)
 	if a.N%5 == 0 {
 		return nil, erpc.NewStatus(4500, "no", "race")
 	}
@@ -55,7 +56,7 @@ func (agePlugin) PostAccept(s erpc.PreSession) *erpc.Status {
 	return nil
 }
 
-var opKinds = []string{"call", "call", "asynccall", "push", "rpush", "rcall", "setid", "swapstore", "swapload", "swaprange", "ages", "health", "closenotify", "getsession", "rangesession", "countsession", "close"}
+var opKinds = []string{"call", "call", "asynccall", "inspect", "inspect", "push", "rpush", "rcall", "setid", "swapstore", "swapload", "swaprange", "ages", "health", "closenotify", "getsession", "rangesession", "countsession", "close"}
 
 type prog struct {
 	Proto   string
@@ -123,13 +124,33 @@ func runProg(p prog, protos []vt.NamedProto) (sameSessionPairs int) {
 			l := links[wi%len(links)]
 			atomic.AddInt32(&touched[wi%len(links)], 1)
 			ch := make(chan erpc.CallCmd, len(ops)+1)
+			var cmds []erpc.CallCmd
 			for oi, op := range ops {
 				arg := &RArg{S: fmt.Sprintf("w%do%d", wi, oi), N: wi*100 + oi}
 				switch op {
 				case "call":
-					l.A.Call(callR, arg, new(RArg), settings...)
+					cmds = append(cmds, l.A.Call(callR, arg, new(RArg), settings...))
 				case "asynccall":
-					l.A.AsyncCall(callR, arg, new(RArg), ch, settings...)
+					cmds = append(cmds, l.A.AsyncCall(callR, arg, new(RArg), ch, settings...))
+				case "inspect":
+					// everything a completed call hands out may be read while other traffic flows
+					for _, c := range cmds {
+						select {
+						case <-c.Done():
+							c.StatusOK()
+							_ = c.Status().Code()
+							if m := c.InputMeta(); m != nil {
+								m.Peek("k")
+								m.VisitAll(func(k, v []byte) {})
+							}
+							c.InputBodyCodec()
+							c.CostTime()
+							if r, _ := c.Reply(); r != nil {
+								_ = r.(*RArg).S
+							}
+						default:
+						}
+					}
 				case "push":
 					l.A.Push(pushR, arg, settings...)
 				case "rpush":
@@ -187,7 +208,7 @@ func runProg(p prog, protos []vt.NamedProto) (sameSessionPairs int) {
 }
 
 func TestC14Programs(t *testing.T) {
-	rec := vt.NewRec(t, "C14", "programs", "generated concurrent programs: 2-10 goroutines each running 1-12 documented-safe operations (Call, AsyncCall, Push in both directions, handler replies, SetID, Swap store/load/range, age getters, Health, CloseNotify, GetSession, RangeSession, CountSession, Close as a last op) on 1-2 shared sessions between two peers, protocols raw/json/pb, with/without a filter pipe, a second process runs the same generator with run-logging at INFO and PrintDetail; oracle: the Go race detector (binary built with -race), reports are parsed by the driver and count only if both accesses are in framework code; non-trivial = >=2 goroutines touched the same session (measured); distinct by program")
+	rec := vt.NewRec(t, "C14", "programs", "generated concurrent programs: 2-10 goroutines each running 1-12 documented-safe operations (Call, AsyncCall, inspection of completed calls' status/result/reply metadata, Push in both directions, handler replies, SetID, Swap store/load/range, age getters, Health, CloseNotify, GetSession, RangeSession, CountSession, Close as a last op) on 1-2 shared sessions between two peers, protocols raw/json/pb, with/without a filter pipe, a second process runs the same generator with run-logging at INFO and PrintDetail; oracle: the Go race detector (binary built with -race), reports are parsed by the driver and count only if both accesses are in framework code; non-trivial = >=2 goroutines touched the same session (measured); distinct by program")
 	protos := vt.StreamProtos()
 	rapid.Check(t, func(t *rapid.T) {
 		p := genProg(t, protos)
